@@ -521,7 +521,7 @@ double Find_Root(std::function<double(double)> func, double xLeft, double xRight
 		std::cerr << "Error in libphysica::Find_Root(): Function returns nan at the brackets." << std::endl;
 		std::exit(EXIT_FAILURE);
 	}
-	else if(fLeft * fRight >= 0.0)
+	else if(Sign(fLeft) * Sign(fRight) >= 0)
 	{
 		if(fLeft == 0)
 			return xLeft;
